@@ -343,6 +343,68 @@ def run(facts, rep, tier):
                "`%s` under `%s.is_none()`: a missing bound is filled from the format's row" % (src(x)[:40], l["path"]) if okw else
                "the effective bound is rewritten by `%s`: after exclusive bounds were turned into inclusive ones by +/-1 any further adjustment (rounding, clamping) can exclude integers the schema admits, so NonZero or a narrower type is chosen wrongly" % src(x)[:80], x.get("sp"))
 
+    # ------------------------------------------------------------ D5c the number (float) conversion and its default
+    import minirust as mrn
+    hn = [x for x in c.user_fns() if x["fn"].endswith("TypeSpace::convert_number")]
+    if rep.floor("C10.D5", "number conversion", len(hn), 1):
+        hN = hn[0]
+        vpar = mpar = None
+        for i_, t_ in enumerate(c.fns[hN["fn"]]["inputs"]):
+            if i_ < len(hN.get("params", [])) and hN["params"][i_].get("k") == "bind":
+                if "NumberValidation" in t_:
+                    vpar = hN["params"][i_]["name"]
+                elif "Metadata" in t_:
+                    mpar = hN["params"][i_]["name"]
+
+        def _m(st_, word):
+            return any((x.get("k") == "field" and x.get("name") == word) or (x.get("k") == "path" and str(x.get("path", "")).endswith("::" + word)) for x, _ in walk(st_))
+        from lib import top_stmts as _ts
+        chk = [st for st in _ts(hN) if _m(st, "InvalidValue") and (_m(st, "default") or (mpar and reads(st, mpar)))]
+        if not chk or vpar is None or mpar is None:
+            rep.ob("C10.D5", "number-default-range", False,
+                   "the number conversion never compares the schema's default with minimum/maximum (its validation parameter is %s): a `default` outside the admitted range of a `type: number` schema is not reported" % ("unused" if vpar and not reads(hN["body"], vpar) else "not used for the default"), c.fns[hN["fn"]].get("sp"))
+        else:
+            mN = mrn.Machine(c, hooks={"as_f64": lambda mach, v: mrn.some(v[1]) if isinstance(v, tuple) and v and v[0] == "json" else mrn.NONE})
+            badn = None
+            nsn = 0
+            # the statements up to and including the check (the bounds may be computed by earlier lets)
+            idx_ = [i_ for i_, t_ in enumerate(_ts(hN)) if t_ is chk[0]][0]
+            prog = {"k": "block", "stmts": _ts(hN)[:idx_ + 1], "tail": None}
+            for lo in (None, 0.0, 10.0):
+                for hi in (None, 10.0, 20.0):
+                    if lo is not None and hi is not None and lo > hi:
+                        continue
+                    probes = {5.0, -1.0, 25.0} | ({lo - 0.5, lo, lo + 0.5} if lo is not None else set()) | ({hi - 0.5, hi, hi + 0.5} if hi is not None else set())
+                    for x in sorted(probes):
+                        val = mrn.some(("struct", "NumberValidation", {"minimum": mrn.some(lo) if lo is not None else mrn.NONE, "maximum": mrn.some(hi) if hi is not None else mrn.NONE,
+                                                                          "exclusive_minimum": mrn.NONE, "exclusive_maximum": mrn.NONE, "multiple_of": mrn.NONE}))
+                        meta = mrn.some(("struct", "Metadata", {"default": mrn.some(("json", x))}))
+                        envn = mrn.Env(init={vpar: val, mpar: meta})
+                        for p_ in hN.get("params", []):
+                            if p_.get("k") == "bind" and p_["name"] not in (vpar, mpar):
+                                envn[p_["name"]] = mrn.NONE
+                        mN.fuel = 100000
+                        try:
+                            try:
+                                mN.ev(prog, envn)
+                                err = False
+                            except mrn.Return as r_:
+                                err = isinstance(r_.value, tuple) and r_.value and r_.value[0] == "Err"
+                        except mrn.Unknown as e_:
+                            badn = "not evaluable (%s)" % e_
+                            break
+                        nsn += 1
+                        want = (lo is not None and x < lo) or (hi is not None and x > hi)
+                        if err != want:
+                            badn = "for minimum %s / maximum %s a default of %g is %s" % ("absent" if lo is None else "%g" % lo, "absent" if hi is None else "%g" % hi, x, "accepted although it lies outside the range" if want else "rejected although it lies inside the range")
+                            break
+                    if badn:
+                        break
+                if badn:
+                    break
+            rep.ob("C10.D5", "number-default-range", badn is None, "evaluated on %d scenarios: InvalidValue exactly when the default lies outside [minimum, maximum]" % nsn if badn is None else
+                   "the number conversion's default check is wrong: %s" % badn, chk[0].get("sp"))
+
     # ------------------------------------------------------------ D4 fallbacks
     tail = block_last(h["body"])
     s = src(tail)
